@@ -91,6 +91,9 @@ func (s *Session) Exec2(t []string, num func(int) uint64) (obs, viol string, han
 		switch t[0] {
 		case "diff", "diffloads":
 			s.Store.TakeLoads()
+			for _, iso := range s.isoStores {
+				iso.TakeLoads()
+			}
 			err := nw.DiffIter(s.ctx, old, func(added, removed bool, key, av, rv interface{}) (bool, error) {
 				evs = append(evs, s.evString(added, removed, key, av, rv))
 				return true, nil
@@ -105,6 +108,11 @@ func (s *Session) Exec2(t []string, num func(int) uint64) (obs, viol string, han
 				set := map[string]bool{}
 				for _, n := range s.Store.TakeLoads() {
 					set[n] = true
+				}
+				for _, iso := range s.isoStores { // versions opened on stores of their own
+					for _, n := range iso.TakeLoads() {
+						set[n] = true
+					}
 				}
 				var names []string
 				for n := range set {
